@@ -24,9 +24,9 @@ import re
 import subprocess
 import sys
 
-TEMPLATES = 3
+TEMPLATES = 4
 MAX_ARGS = 6
-TEMPLATE_NAMES = ["arith-i64", "vec-memo", "mixed-types"]
+TEMPLATE_NAMES = ["arith-i64", "vec-memo", "mixed-types", "ref-args-effects"]
 
 
 # ------------------------------------------------------------------------------------------------
@@ -96,7 +96,7 @@ def shapes_for_tier(tier):
 def quick_wide_shapes(first_sid):
     """Quick tier only: every &/&mut pattern and order of 3 and of 4 captures (8 + 16 = 24 patterns) with a reduced
     cross product: one argument count per pattern (cycling 1..4), both call syntaxes, {ret, none} alternating;
-    one body template per shape (sid % 3, so the two call syntaxes of a pattern get two different bodies)."""
+    one body template per shape (sid % TEMPLATES, so the two call syntaxes of a pattern get two different bodies)."""
     out = []
     sid = first_sid
     k = 0
@@ -112,7 +112,7 @@ def quick_wide_shapes(first_sid):
 def beyond_shapes(first_sid):
     """Sample beyond the property's stated bound (thorough tier only; the theorems are unbounded): every &/&mut
     pattern of 5 and of 6 captures with 2 and with 6 arguments, with/without return type; the call syntax
-    alternates. One body template per shape (sid % 3)."""
+    alternates. One body template per shape (sid % TEMPLATES)."""
     out = []
     sid = first_sid
     for ncap in (5, 6):
@@ -130,16 +130,21 @@ def beyond_shapes(first_sid):
 # per template: types/initial values of captures (by declared position), types of arguments (by position),
 # return type, how to read a capture as i64, how to update a mutable capture with an i64 expression.
 
-RET_TY = ["i64", "i64", "(i64, u8)"]
+RET_TY = ["i64", "i64", "(i64, u8)", "i64"]
 
 _CAP_TY2 = ["i64", "Vec<u8>", "(i64, bool)", "[u32; 3]"]
 _CAP_INIT2 = ["7", "vec![1u8, 2, 3]", "(5, true)", "[10u32, 20, 30]"]
 _ARG_TY2 = ["i64", "u8", "(i64, i64)", "bool"]
+# template 3 ("ref-args-effects"): arguments of REFERENCE type (an output buffer `&mut Vec<i64>`, a slice `&[i64]`, a `&i64`),
+# the closure is called three times from the outside with fresh borrows taken in separate scopes and the buffer is read
+# between the calls; captures alternate `i64` / `Vec<i64>`; the argument expressions of the recursive calls MUTATE a
+# mutable capture (bump a captured counter through a helper fn / pop a captured stack) resp. READ one.
+_ARG_TY3 = ["i64", "&mut Vec<i64>", "&[i64]", "&i64"]
 
 
 def cap_ty(t, i):
     """type of the capture written at position i (any i; template 2 cycles through four different types)"""
-    return ["i64", "Vec<i64>", _CAP_TY2[i % 4]][t]
+    return ["i64", "Vec<i64>", _CAP_TY2[i % 4], ["i64", "Vec<i64>"][i % 2]][t]
 
 
 def cap_init(t, i):
@@ -147,6 +152,8 @@ def cap_init(t, i):
         return str([11, -22, 333, -4444, 55555, -666666, 7777777, -88888888][i % 8] + (i // 8))
     if t == 1:
         return ["vec![3, 1, 4]", "vec![-1, 5]", "vec![9, 2, 6, 5]", "vec![35]", "vec![8, 9, 7]", "vec![-3, 2, 3]"][i % 6]
+    if t == 3:
+        return [str(5 + 3 * i), f"vec![{i + 1}, {2 * i + 7}, {i + 4}]"][i % 2]
     if i < 4:
         return _CAP_INIT2[i]
     return {"i64": str(7 + i), "Vec<u8>": f"vec![{i}u8, 2]", "(i64, bool)": f"({i}, false)", "[u32; 3]": f"[{i}u32, 1, 2]"}[_CAP_TY2[i % 4]]
@@ -157,6 +164,8 @@ def arg_ty(t, k):
         return "i64"
     if t == 1:
         return "usize" if k == 0 else "i64"
+    if t == 3:
+        return _ARG_TY3[k % 4]
     return "i64" if k == 0 else _ARG_TY2[k % 4] if k % 4 else "i64"
 
 
@@ -181,6 +190,12 @@ def call_inputs(t, seed, sh):
                 row.append(f"({rng.randint(-5, 5)}, {rng.randint(-5, 5)})")
             elif ty == "bool":
                 row.append(rng.choice(["true", "false"]))
+            elif ty == "&mut Vec<i64>":
+                row.append("")                        # the outer output buffer ob<k>
+            elif ty == "&[i64]":
+                row.append("vec![" + ", ".join(str(rng.randint(-9, 9)) for _ in range(rng.randint(1, 4))) + "]")
+            elif ty == "&i64":
+                row.append(str(rng.randint(-9, 9)))
             else:
                 raise ValueError(ty)
         out.append(row)
@@ -194,6 +209,8 @@ def cap_read(t, i):
         return f"(*{c})"
     if t == 1:
         return f"{c}[(a0 + {i}) % {c}.len()]"
+    if t == 3:
+        return [f"(*{c})", f"({c}.len() as i64).wrapping_add({c}.last().copied().unwrap_or(0))"][i % 2]
     ty = cap_ty(2, i)
     return {"i64": f"(*{c})", "Vec<u8>": f"({c}.len() as i64 + {c}[0] as i64)",
             "(i64, bool)": f"({c}.0.wrapping_add({c}.1 as i64))", "[u32; 3]": f"({c}[1] as i64)"}[ty]
@@ -206,6 +223,8 @@ def cap_write(t, i, v, salt):
         return [f"*{c} = {c}.wrapping_mul(31).wrapping_add({v}).wrapping_add({salt});"]
     if t == 1:
         return [f"{c}.push(({v}).wrapping_add({salt}));"]
+    if t == 3:
+        return [[f"*{c} = {c}.wrapping_mul(31).wrapping_add({v}).wrapping_add({salt});"], [f"{c}.push(({v}).wrapping_add({salt}));"]][i % 2]
     ty = cap_ty(2, i)
     return {
         "i64": [f"*{c} = {c}.wrapping_mul(31).wrapping_add({v}).wrapping_add({salt});"],
@@ -218,7 +237,8 @@ def cap_write(t, i, v, salt):
 def arg_i64(t, k):
     a = f"a{k}"
     ty = arg_ty(t, k)
-    return {"i64": a, "usize": f"({a} as i64)", "u8": f"({a} as i64)", "(i64, i64)": f"({a}.0 ^ {a}.1)", "bool": f"({a} as i64)"}[ty]
+    return {"i64": a, "usize": f"({a} as i64)", "u8": f"({a} as i64)", "(i64, i64)": f"({a}.0 ^ {a}.1)", "bool": f"({a} as i64)",
+            "&mut Vec<i64>": f"({a}.len() as i64)", "&[i64]": f"{a}[(a0 as usize) % {a}.len()]", "&i64": f"(*{a})"}[ty]
 
 
 def arg_next(t, k, variant):
@@ -237,6 +257,10 @@ def arg_next(t, k, variant):
         return f"({a}.1, {a}.0 + 1)" if variant == 1 else f"({a}.0 - 1, {a}.1)"
     if ty == "bool":
         return f"!{a}" if variant == 1 else f"{a} ^ true"
+    if ty in ("&mut Vec<i64>", "&i64"):
+        return a                                   # re-borrowed / copied reference
+    if ty == "&[i64]":
+        return a if variant == 1 else f"&{a}[..]"
     raise ValueError(ty)
 
 
@@ -251,8 +275,21 @@ def body_lines(sh, t, call):
     for i in sh.muts():                      # mutable captures are read, then updated
         L.append(f"tr({cap_read(t, i)});")
         L += cap_write(t, i, f"({arg_i64(t, 0)} ^ sh)", i + 1)
-    rec1 = call([arg_next(t, k, 1) for k in range(sh.nargs)])
-    rec2 = call([arg_next(t, k, 2) for k in range(sh.nargs)])
+    ex1 = [arg_next(t, k, 1) for k in range(sh.nargs)]
+    ex2 = [arg_next(t, k, 2) for k in range(sh.nargs)]
+    if t == 3:
+        for k in range(sh.nargs):
+            if arg_ty(t, k) == "&mut Vec<i64>":
+                L.append(f"a{k}.push(a0.wrapping_add(sh));")
+        if sh.muts():
+            # argument expressions with side effects on / reads of a mutable capture, evaluated BEFORE the callee runs:
+            # call 1 mutates the first mutable capture (bump a counter via a helper fn / pop a stack), call 2 reads the last one
+            m1, m2 = sh.muts()[0], sh.muts()[-1]
+            mut_expr = [f"bump(c{m1})", f"c{m1}.pop().unwrap_or(3)"][m1 % 2]
+            ex1[0] = f"a0 - 1 - ({mut_expr} & 0)"
+            ex2[0] = f"a0 - 2 + ({cap_read(t, m2)} & 0)"
+    rec1 = call(ex1)
+    rec2 = call(ex2)
     last = arg_i64(t, sh.nargs - 1)
 
     def after(v):
@@ -308,10 +345,34 @@ def gen_pair(sh, t, seed=1):
         decl.append(f"    let {'mut ' if m else ''}c{i}: {cap_ty(t, i)} = {cap_init(t, i)};")
     final = "".join(f'    out += &format!("c{i}={{:?}};", c{i});\n' for i, _ in caps)
 
+    bufs = [k for k in range(n) if arg_ty(t, k) == "&mut Vec<i64>"]
+    for k in bufs:
+        decl.append(f"    let mut ob{k}: Vec<i64> = Vec::new();")
+
     def calls(fn_call):
         s = ""
         for inp in call_inputs(t, seed, sh):
-            s += f'        let r = {fn_call(inp[:n])};\n        out += &format!("{{:?}};", r);\n'
+            if t != 3:
+                s += f'        let r = {fn_call(inp[:n])};\n        out += &format!("{{:?}};", r);\n'
+                continue
+            # every call in a scope of its own with fresh referents for the `&` arguments and a fresh `&mut` borrow of the buffers
+            s += "        {\n"
+            actual = []
+            for k in range(n):
+                ty = arg_ty(t, k)
+                if ty == "&mut Vec<i64>":
+                    actual.append(f"&mut ob{k}")
+                elif ty == "&[i64]":
+                    s += f"            let d{k}: Vec<i64> = {inp[k]};\n"
+                    actual.append(f"&d{k}[..]")
+                elif ty == "&i64":
+                    s += f"            let s{k}: i64 = {inp[k]};\n"
+                    actual.append(f"&s{k}")
+                else:
+                    actual.append(inp[k])
+            s += f'            let r = {fn_call(actual)};\n            out += &format!("{{:?}};", r);\n        }}\n'
+            for k in bufs:          # the buffer is read between two uses of the closure
+                s += f'        out += &format!("ob{k}={{:?}};", ob{k});\n'
         return s
 
     # ---- generated version
@@ -358,6 +419,7 @@ thread_local! { static TR: Cell<u64> = Cell::new(0); }
 fn tr(x: i64) { TR.with(|t| t.set((t.get() ^ (x as u64)).wrapping_mul(0x100000001b3).rotate_left(5))); }
 fn tr_reset() { TR.with(|t| t.set(0xcbf29ce484222325)); }
 fn tr_get() -> u64 { TR.with(|t| t.get()) }
+fn bump(c: &mut i64) -> i64 { *c = c.wrapping_mul(3).wrapping_add(1); *c }
 """
 
 
